@@ -168,6 +168,22 @@ def aeadInput (maskOf : List Nat → List Nat) (hdrLen : Nat) (pkt : List Nat) :
   | none => none
   | some s => unprotect (maskOf s) hdrLen pkt
 
+/-- `HEADER_PROTECTION_MASK_LEN` -/
+def hpMaskLen : Nat := 5
+/-- `Iv::nonce`: 4 zero bytes ‖ 8-byte big-endian packet number, XOR the 12-byte IV -/
+def pinnedNonceShape : List String := ["zero_u32", "pn_u64", "xor_iv", "return_nonce"]
+/-- `EncryptedPayload::split_mut`: the AAD is the header plus the packet-number bytes -/
+def pinnedAadSplit : String := "self.header_len + self.packet_number_len.bytesize()"
+/-- `MIN_INDISTINGUISHABLE_PACKET_LEN_WITHOUT_TAG` -/
+def pinnedMinIndistinguishableExpr : String :=
+  "core::mem::size_of::<Tag>() + PacketNumberLen::MAX_LEN + connection::id::MAX_LEN + 1"
+def pinnedCipherSuites : List String :=
+  ["TLS_AES_128_GCM_SHA256", "TLS_AES_256_GCM_SHA384", "TLS_CHACHA20_POLY1305_SHA256"]
+
+/-- `nonce = iv XOR (0^32 ‖ pn)` on byte lists: distinct packet numbers give distinct nonces -/
+def nonce (iv : List Nat) (pn : Nat) : List Nat :=
+  xorMask (beBytes 4 0 ++ beBytes 8 pn) iv
+
 /-! ### tampering operators of the `packet_protection` differential -/
 
 def flip (pkt : List Nat) (i mask : Nat) : List Nat :=
